@@ -31,7 +31,7 @@ dump = open(sys.argv[3], "w")
 W = sc.get("watchdog", 60)
 N, NT = sc["n_jobs"], sc["n_tasks"]
 KIND, HOW = sc["kind"], sc.get("how", "SIGKILL")
-IN_TASK = ("mgr_busy", "arg_unpickle", "task_start", "mid_task", "result_pickle", "mid_send", "after_send",
+IN_TASK = ("respawn", "mgr_busy", "arg_unpickle", "task_start", "mid_task", "result_pickle", "mid_send", "after_send",
            "arg_unloadable", "result_garbage")
 
 
@@ -71,6 +71,8 @@ def kill_pids(pids):
 
 def n_tasks_of(call_no):
     # the submit-window instant needs a call with a single submit
+    if call_no == 1 and sc.get("n_tasks1"):
+        return sc["n_tasks1"]
     return 1 if (call_no == 1 and KIND == "submit_window") else NT
 
 
@@ -105,6 +107,8 @@ def make_tasks(call_no, victim_pids):
                 arg = T.Unloadable("worker")
             elif KIND == "mgr_busy":
                 fault = "die_when_mgr_busy"
+            elif KIND == "respawn":
+                fault = "mid_task"
             else:
                 fault = KIND
         if fault_here and KIND == "mgr_busy" and i == sc.get("slow", 0):
@@ -173,6 +177,17 @@ def scenario(par):
                     break
                 time.sleep(0.005)
         emit({"noticed": noticed})
+    if KIND == "respawn":
+        # every worker exits cleanly, exactly as on idle time-out (None sentinel -> put(pid) -> manager pops it);
+        # the next submit has to respawn the workers while the manager thread is asleep in wait()
+        e = reusable_executor._executor
+        for _ in range(len(e._processes)):
+            e._call_queue.put(None)
+        t = time.time()
+        while e._processes and time.time() - t < 10:
+            time.sleep(0.01)
+        time.sleep(0.3)
+        emit({"retired_left": len(e._processes)})
     if KIND == "submit_window":
         HOOK["victims"] = victim_pids
         HOOK["armed"] = True
